@@ -52,6 +52,53 @@ fn diff(a: &Value, b: &Value, path: &str) -> Option<String> {
     }
 }
 
+/// does `expr` (following `var` references) contain a fake that yields free text of unbounded length?
+fn free_text(expr: &Value, vars: &Value, depth: usize) -> bool {
+    match expr {
+        Value::Object(o) => {
+            if let Some(f) = o.get("fake") {
+                return matches!(f.get(0).and_then(|x| x.as_str()), Some("street_address") | Some("company_name") | Some("city_name") | Some("sentence"));
+            }
+            if let Some(v) = o.get("var").and_then(|v| v.as_str()) {
+                return depth < 5 && free_text(&vars[v], vars, depth + 1);
+            }
+            o.values().any(|x| free_text(x, vars, depth))
+        }
+        Value::Array(a) => a.iter().any(|x| free_text(x, vars, depth)),
+        _ => false,
+    }
+}
+
+/// paths (below `schema`) of the leaves `{"substr": [free text, 0, N]}` with their N
+fn substr_leaves(v: &Value, vars: &Value, path: &mut Vec<String>, out: &mut Vec<(Vec<String>, usize)>) {
+    match v {
+        Value::Object(o) => {
+            if o.len() == 1 && o.contains_key("substr") {
+                let a = &o["substr"];
+                if a[1].as_u64() == Some(0) && free_text(&a[0], vars, 0) {
+                    if let Some(n) = a[2].as_u64() { out.push((path.clone(), n as usize)); }
+                }
+                return;
+            }
+            for (k, x) in o { path.push(k.clone()); substr_leaves(x, vars, path, out); path.pop(); }
+        }
+        Value::Array(a) => for (i, x) in a.iter().enumerate() { path.push(i.to_string()); substr_leaves(x, vars, path, out); path.pop(); },
+        _ => {}
+    }
+}
+
+fn leaf_mut<'a>(v: &'a mut Value, path: &[String]) -> Option<&'a mut Value> {
+    let mut cur = v;
+    for p in path {
+        cur = match cur {
+            Value::Array(a) => a.get_mut(p.parse::<usize>().ok()?)?,
+            Value::Object(o) => o.get_mut(p)?,
+            _ => return None,
+        };
+    }
+    Some(cur)
+}
+
 pub fn run(args: &[String]) -> i32 {
     let root = arg(args, "--scenarios").unwrap_or("/repo/test_scenarios");
     let draws: usize = arg(args, "--draws").and_then(|s| s.parse().ok()).unwrap_or(5);
@@ -72,15 +119,24 @@ pub fn run(args: &[String]) -> i32 {
     }
     let mut id = 0usize;
     let mut runs = 0u64;
+    let mut boundary_runs = 0u64;
     let mut samples: Vec<Value> = Vec::new();
     let mut index: Vec<Value> = Vec::new();
     for (mt, path) in &files {
         let schema: Value = match std::fs::read_to_string(path).ok().and_then(|s| serde_json::from_str(&s).ok()) { Some(v) => v, None => continue };
         let scenario = format!("{}/{}", mt.to_lowercase(), path.file_stem().unwrap().to_string_lossy());
-        for draw in 0..draws {
+        let mut leaves: Vec<(Vec<String>, usize)> = Vec::new();
+        substr_leaves(&schema["schema"], &schema["variables"], &mut Vec::new(), &mut leaves);
+        // draw number `draws` is the boundary draw: every free-text leaf cut by substr(0, N) comes out
+        // of its generator with at least N characters (a rare but possible draw), so it is exactly N long
+        for draw in 0..=draws {
+            let boundary = draw == draws;
+            if boundary && leaves.is_empty() { continue; }
             id += 1;
             runs += 1;
+            if boundary { boundary_runs += 1; }
             let code = mt.trim_start_matches("MT").to_string();
+            let scenario = if boundary { format!("{}#longest-texts", scenario) } else { scenario.clone() };
             let mut evs: Vec<Value> = vec![json!({"e": "begin", "id": id, "scenario": scenario, "mt": code})];
             let r = guarded(|| {
                 let mut evs: Vec<Value> = Vec::new();
@@ -89,6 +145,20 @@ pub fn run(args: &[String]) -> i32 {
                 let g = run_plugin_on("generate_mt", &mut msg, json!({"target": "sample_json"}));
                 evs.push(json!({"e": "generate", "ok": g.ok}));
                 if !g.ok { return (evs, Value::Null, String::new()); }
+                if boundary {
+                    let mut sj = msg.data()["sample_json"].clone();
+                    let inner_is_wrapped = sj.get("json_data").is_some();
+                    for (path, n) in &leaves {
+                        let root = if inner_is_wrapped { sj.get_mut("json_data").unwrap() } else { &mut sj };
+                        if let Some(leaf) = leaf_mut(root, path) {
+                            if let Some(txt) = leaf.as_str() {
+                                let have = txt.chars().count();
+                                if have < *n { *leaf = json!(format!("{}{}", txt, "abcdefghij".chars().cycle().take(*n - have).collect::<String>())); }
+                            }
+                        }
+                    }
+                    msg.data_mut().as_object_mut().unwrap().insert("sample_json".into(), sj);
+                }
                 let generated = msg.data()["sample_json"].clone();
                 let p = run_plugin_on("publish_mt", &mut msg, json!({"source": "sample_json", "target": "sample_mt"}));
                 let text = msg.data()["sample_mt"].as_str().unwrap_or("").to_string();
@@ -113,11 +183,11 @@ pub fn run(args: &[String]) -> i32 {
                 Ok((mut e2, generated, text)) => {
                     let failed = e2.iter().any(|e| e["ok"] == false || e["equal"] == false || e["valid"] == false);
                     evs.append(&mut e2);
-                    if failed || (samples.len() < 2 && draw == 0) {
+                    if failed || (samples.len() < 2 && draw == 0) || (samples.len() < 3 && boundary) {
                         let art = format!("{}/{}.json", artefacts, id);
                         let _ = std::fs::write(&art, json!({"scenario": scenario, "generated": generated, "published": text, "events": evs}).to_string());
                         index.push(json!({"id": id, "scenario": scenario, "artefact": art}));
-                        if samples.len() < 2 { samples.push(json!({"scenario": scenario, "published": text})); }
+                        if samples.len() < 3 { samples.push(json!({"scenario": scenario, "published": text})); }
                     }
                 }
                 Err(p) => {
@@ -129,6 +199,6 @@ pub fn run(args: &[String]) -> i32 {
         }
     }
     let _ = w.flush();
-    std::fs::write(out_path, json!({"scenario_files": files.len(), "runs": runs, "draws": draws, "samples": samples, "artefacts": index}).to_string()).expect("write");
+    std::fs::write(out_path, json!({"scenario_files": files.len(), "runs": runs, "draws": draws, "boundary_draws": boundary_runs, "samples": samples, "artefacts": index}).to_string()).expect("write");
     0
 }
